@@ -129,8 +129,11 @@ class _IntrinsicInlineEntity:
 
 @_intrinsic
 def select_with(arg, branches: dict, default=None):
-    if arg in branches:
-        return branches[arg]
+    # compare by value: primitive types like Unsigned compare equal
+    # to integers/strings but do not hash like them
+    for key, value in branches.items():
+        if key == arg:
+            return value
 
     return default
 
